@@ -25,7 +25,7 @@ ENGINE = "E1-svcgen-rig+E2-raw-drivers"
 TECHNIQUE = "cross-method token replay at the HTTP boundary with a server-side invocation log"
 LEVEL_TEXT = (
     "Exploration: for generated services (fixed relation-covering service + seeded random ones) every token pair minted during "
-    "each stream lifetime was presented to every other stream endpoint of the service in 4 request shapes x 2 cache modes; "
+    "each stream lifetime was presented to every other stream endpoint of the service in 4 request shapes x 3 cache modes (disabled, warmed by /init, refilled on a second worker by a legitimate continuation); "
     "each presentation judged on status and on hook invocations of the foreign method. Held means no foreign endpoint served or "
     "ran a hook on those executions."
 )
@@ -125,9 +125,14 @@ def run_service(program: dict[str, Any], chk: Check, label: str) -> None:
 
     idx = tl.ID_INDEX["d_alice"]
     methods = {m["name"]: m for m in program["methods"]}
-    for cache_mode, cache in (("cache0", 0), ("warm", 4096)):
+    # "refilled": the foreign presentation lands on a second worker (same key, own cache) whose entry for the
+    # call was recorded by the cache-miss path of a legitimate continuation, not by /init
+    for cache_mode, cache in (("cache0", 0), ("warm", 4096), ("refilled", 4096)):
         proto, impl = svcgen.build(program)
         app, _h = tl.make_app(proto, impl, key=KEY, token_ttl=3600, call_state_cache_entries=cache)
+        target = app
+        if cache_mode == "refilled":
+            target, _h2 = tl.make_app(proto, impl, key=KEY, token_ttl=3600, call_state_cache_entries=cache)
         # lifetimes: harvest every token pair of every method
         lifetimes: dict[str, list[tuple[bytes, bytes, int]]] = {}
         for name, m in methods.items():
@@ -161,9 +166,16 @@ def run_service(program: dict[str, Any], chk: Check, label: str) -> None:
                 if b["kind"] == "exchange" and (a["kind"] != "exchange" or a["in_cols"] != b["in_cols"]):
                     shapes.append(("b_input_schema", b["in_cols"], False))
                 for cur, call, age in lifetimes[aname]:
+                    if cache_mode == "refilled":
+                        r = tl.exchange(target, aname, idx, tl.cont_body(a.get("in_cols") if a["kind"] == "exchange" else None, cur, call))
+                        o = tl.outcome(r)
+                        if o["status"] != 200 or o["error"] is not None:
+                            chk.violation("own_endpoint_rejected:second_worker", "a second worker with the same key rejected a stream's own tokens", {"service": label, "method": aname, "age": age, "outcome": o})
+                            continue
+                        chk.hit("refill_turn_ok")
                     for shape, cols, cancel in shapes:
                         inv0 = len(impl.inv)
-                        r = tl.exchange(app, bname, idx, tl.cont_body(cols, cur, call, cancel=cancel))
+                        r = tl.exchange(target, bname, idx, tl.cont_body(cols, cur, call, cancel=cancel))
                         o = tl.outcome(r)
                         new = [_inv_entry(e) for e in impl.inv[inv0:]]
                         cls = f"{a['kind']}/{'|'.join(_declared(a))}->{b['kind']}/{'|'.join(_declared(b))}|{rel}|{shape}|{cache_mode}"
@@ -205,7 +217,7 @@ def run_shard(job: dict[str, Any]) -> dict[str, Any]:
 
 def main(tier: str, seed: int) -> int:
     chk = Check(PID, tier, seed, level=CATEGORY, rule=RULE)
-    chk.require("own_endpoint_accept", "tokens_harvested", "foreign_presented", "services")
+    chk.require("own_endpoint_accept", "tokens_harvested", "foreign_presented", "services", "refill_turn_ok")
     chk.assumptions += ["single caller identity (d/alice); identity binding is judged by C12", "a non-4xx error response without any hook invocation is counted as a rejection (recorded separately)"]
     nrand = 200 if tier == "quick" else 3000
     specs: list[Any] = ["fixed"] + [seed * 10_000 + i for i in range(nrand)]
